@@ -36,7 +36,7 @@ theorem M3_hasDerivAt {p : SedovFuncsO3.P} {γ k ω v : ℝ} (hC : O3Consts p γ
   have hLpos := O3.l_pos p v B
   have hv := S.hv
   have hγ := S.hγ
-  have hF : SedovFuncsO3.L1.f_fun p v = p.a_val * v * SedovFuncsO3.L1.l_fun p v := by simp only [epv_leaf]
+  have hF : SedovFuncsO3.L1.f_fun p v = p.a_val * v * SedovFuncsO3.L1.l_fun p v := by simp only [epv_semi_leaf]
   have hFd : SedovFuncsO3.L1.f_fun_dv p v = p.a_val * SedovFuncsO3.L1.l_fun p v + p.a_val * v * SedovFuncsO3.L1.l_fun_dv p v := by
     rw [O3.f_dv p v B, O3.l_dv p v B]; field_simp
   have hav : p.a_val = 1 / 4 * (k + 2 - ω) * (γ + 1) := hC.a_val
@@ -108,7 +108,7 @@ theorem e2_pos3 {p : SedovFuncsO3.P} {γ k ω : ℝ} (hC : O3Consts p γ k ω) (
 
 theorem l_continuousOn3 {p : SedovFuncsO3.P} (s : Set ℝ) (hs : ∀ v ∈ s, ClosedBases3 p v) (ha2 : 0 < -p.a2) :
     ContinuousOn (SedovFuncsO3.L1.l_fun p) s := by
-  unfold SedovFuncsO3.L1.l_fun
+  rw [(funext (EPV.Bridge.Semi.SedovFuncsO3_L1_l_fun p) : SedovFuncsO3.L1.l_fun p = _)]
   refine (ContinuousOn.mul (ContinuousOn.rpow_const (by fun_prop) ?_) (ContinuousOn.rpow_const (by fun_prop) ?_)).mul
     (ContinuousOn.rpow_const (by fun_prop) ?_)
   · intro v hv; exact Or.inl (hs v hv).x1.ne'
@@ -125,7 +125,7 @@ def Mc3 (p : SedovFuncsO3.P) (X : ℝ) (kn : ℕ) (v : ℝ) : ℝ :=
 theorem M3_eq_Mc3 {p : SedovFuncsO3.P} {v : ℝ} (B : ClosedBases3 p v) (X : ℝ) (kn : ℕ) (h1 : 1 ≤ kn) (ha2 : 0 < -p.a2)
     (he2 : 0 < p.a3 + p.omega * p.a2 + (-p.a2) * kn) : M3 p X kn v = Mc3 p X kn v := by
   unfold M3 Mc3
-  simp only [epv_leaf]
+  simp only [epv_semi_leaf]
   rw [mul_pow, mul_pow]
   have E1 := Std.rpow_combine B.x1 (p.a0 * p.omega) (-p.a0) _ kn rfl
   have E2 := rpow_combine0 B.x2 (p.a3 + p.omega * p.a2) (-p.a2) kn ha2.ne' h1 he2.ne'
@@ -150,7 +150,7 @@ theorem l_at_v0_3 {p : SedovFuncsO3.P} {γ k ω : ℝ} (hC : O3Consts p γ k ω)
     rw [hC.c_val]; unfold K.c_val v0
     have := P.X_pos.ne'; have := P.γ_pos.ne'
     field_simp; ring
-  simp only [epv_leaf, hx, mul_zero, Real.zero_rpow ha2.ne', zero_mul]
+  simp only [epv_semi_leaf, hx, mul_zero, Real.zero_rpow ha2.ne', zero_mul]
 
 theorem at_v2_3 {p : SedovFuncsO3.P} {γ k ω : ℝ} (hC : O3Consts p γ k ω) (P : Params γ k ω) :
     SedovFuncsO3.L1.l_fun p (v2 γ k ω) = 1 ∧ SedovFuncsO3.L1.g_fun p (v2 γ k ω) = 1 := by
@@ -163,7 +163,7 @@ theorem at_v2_3 {p : SedovFuncsO3.P} {γ k ω : ℝ} (hC : O3Consts p γ k ω) (
     rw [hC.b_val, hC.c_val]; unfold K.b_val K.c_val v2; field_simp; ring
   have h4 : p.b_val * (1 - 1 / 2 * p.xg2 * v2 γ k ω) = 1 := by
     rw [hC.b_val, hC.xg2]; unfold K.b_val v2; field_simp; ring
-  simp only [epv_leaf, h1, h2, h4, Real.one_rpow, mul_one, sub_self, mul_zero, zero_div, Real.exp_zero, and_self]
+  simp only [epv_semi_leaf, h1, h2, h4, Real.one_rpow, mul_one, sub_self, mul_zero, zero_div, Real.exp_zero, and_self]
 
 /-- **The mass integral, special_singularity omega3** (exactly special ω = k(2-γ); standard type):
 for ANY g with g(λ(v)) = G(v) on v0 < v < v2, ∫₀¹ g x^(k-1) dx = (γ-1)/((γ+1)(k-ω)). -/
